@@ -317,7 +317,10 @@ impl Scenario for Codec {
                 }
             }
             _ => {
-                let mut disk = SimDisk::new(Vec::new(), &c.pol);
+                // a healthy write of n bytes needs at most a few operations per byte even under
+                // one-byte transfers: a much smaller budget than the default turns a flush that
+                // never completes into an error within a second
+                let mut disk = SimDisk::new(Vec::new(), &c.pol).budget(64 * data.len() as u64 + 2_000_000);
                 let chunks = caller_chunks(&data, &c.chunks, c.pol.seed);
                 let r = sut::guard_async("compress_async", async {
                     let mut d2 = disk.clone();
@@ -335,6 +338,9 @@ impl Scenario for Codec {
                 })?;
                 ctx.absorb(&disk);
                 if let Err(e) = r {
+                    if disk.budget_exceeded() && c.mid_flush > 0 {
+                        vio!(format!("C14:async-flush-never-completes:codec-{}", c.ic), "the writer returned by compress_async does not finish a mid-stream flush() on a fault-free stream (transfers {:?}, Pending rate {} %): after {} stream operations for {} input bytes the call was stopped", c.pol.wr, c.pol.pend.rate, disk.nops(), data.len());
+                    }
                     vio!("C14:async-writer-failed", "compress_async on a fault-free stream failed: {e}");
                 }
                 produced = Some(disk.image());
